@@ -2,5 +2,6 @@
 package all
 
 import (
+	_ "verifharness/props/c08"
 	_ "verifharness/props/c09"
 )
